@@ -23,6 +23,8 @@ WorkerChecks(r) ==
     \cup (IF r.returned /\ ~r.errctx THEN {"WrongError"} ELSE {})
     \* a hand-off that had to wait (the correlator busy, nobody cancelling) still delivers the login (C05)
     \cup (IF "login" \in DOMAIN r /\ r.login = "lost" THEN {"LoginDropped"} ELSE {})
+    \* an event that cannot be written ends the worker with that error (C05), through the whole ingester chain
+    \cup (IF "login" \in DOMAIN r /\ r.login = "werr:lost" THEN {"WriteErrorLost"} ELSE {})
 
 Failures == {"sshd-eof", "audit-eof", "sshd-eof-partial", "audit-eof-partial", "audit-malformed", "audit-unknown-type",
              "output-fails", "output-breaks-inflight", "output-breaks-staggered", "sshd-not-fifo", "sshd-missing",
